@@ -62,6 +62,16 @@ fn pubkey(req: &Value) -> R {
         "to_decompressed": sub(|| pk.to_decompressed(), pb),
         "address": sub(|| pk.to_p2pkh_address().and_then(|a| a.to_string()), |s| json!(s)),
         "cc": sub(|| pk.to_decompressed().and_then(|d| d.to_compressed()), pb),
+        // serde entry points (JSON text and CBOR bytes) and back
+        "serde_json": sub(|| serde_json::to_string(&pk).and_then(|t| serde_json::from_str::<PublicKey>(&t).map(|p| (t, p))), |(t, p)| json!({"doc": t, "back": pb(p)})),
+        "serde_cbor": sub(
+            || -> Result<PublicKey, String> {
+                let mut buf = vec![];
+                ciborium::ser::into_writer(&pk, &mut buf).map_err(|e| e.to_string())?;
+                ciborium::de::from_reader::<PublicKey, _>(&buf[..]).map_err(|e| e.to_string())
+            },
+            pb,
+        ),
         "dd": sub(|| pk.to_compressed().and_then(|d| d.to_decompressed()), pb),
     }))
 }
@@ -103,10 +113,26 @@ fn addr(req: &Value) -> R {
         Some(n) => {
             let cp = preset(n).ok_or_else(|| drv(format!("preset {}", n)))?;
             preset_prefix = json!(cp.p2pkh);
-            a.set_chain_params(&cp).map_err(lib)?
+            if bo(req, "via_impl") {
+                a.set_chain_params_impl(&cp).map_err(lib)?
+            } else {
+                a.set_chain_params(&cp).map_err(lib)?
+            }
         }
         None => a,
     };
+    // a further sequence of network changes on the same address: [{"prefix": p} | {"preset": name}]
+    let mut a = a;
+    if let Some(seq) = req.get("then").and_then(|x| x.as_array()) {
+        for st_ in seq {
+            let cp = match st_opt(st_, "preset") {
+                Some(n) => preset(n).ok_or_else(|| drv(format!("preset {}", n)))?,
+                None => chain(un(st_, "prefix")?),
+            };
+            preset_prefix = json!(cp.p2pkh);
+            a = if bo(req, "via_impl") { a.set_chain_params_impl(&cp) } else { a.set_chain_params(&cp) }.map_err(lib)?;
+        }
+    }
     let mut o = json!({
         "preset_prefix": preset_prefix,
         "string": sub(|| a.to_string(), |s| json!(s)),
@@ -114,6 +140,15 @@ fn addr(req: &Value) -> R {
         "hash_hex_eq": a.to_pubkey_hash_hex() == hex::encode(a.to_pubkey_hash()),
         "locking": sub(|| a.get_locking_script(), |s| h(&s.to_bytes())),
     });
+    o["serde_json"] = sub(|| serde_json::to_string(&a).and_then(|t| serde_json::from_str::<P2PKHAddress>(&t).map(|b| (t, b))), |(t, b)| json!({"doc": t, "string": b.to_string().unwrap_or_default(), "hash": hex::encode(b.to_pubkey_hash())}));
+    o["serde_cbor"] = sub(
+        || -> Result<P2PKHAddress, String> {
+            let mut buf = vec![];
+            ciborium::ser::into_writer(&a, &mut buf).map_err(|e| e.to_string())?;
+            ciborium::de::from_reader::<P2PKHAddress, _>(&buf[..]).map_err(|e| e.to_string())
+        },
+        |b| json!({"string": b.to_string().unwrap_or_default(), "hash": hex::encode(b.to_pubkey_hash())}),
+    );
     // string round trip through the parser
     o["reparse"] = sub(|| a.to_string().and_then(|s| P2PKHAddress::from_string(&s)).and_then(|b| b.to_string().map(|s| (s, b.to_pubkey_hash()))), |(s, hsh)| json!({"string": s, "hash": hex::encode(hsh)}));
     if let Some(pkb) = hx_opt(req, "unlock_pub")? {
@@ -129,6 +164,7 @@ fn addr(req: &Value) -> R {
 fn xprv_json(x: &ExtendedPrivateKey) -> Value {
     json!({
         "string": sub(|| x.to_string(), |s| json!(s)),
+        "string_impl_eq": x.to_string().ok() == x.to_string_impl().ok(),
         "key": h(&x.get_private_key().to_bytes()),
         "pub": sub(|| x.get_public_key().to_bytes(), |b| h(&b)),
         "chain": h(&x.get_chain_code()),
@@ -141,6 +177,7 @@ fn xprv_json(x: &ExtendedPrivateKey) -> Value {
 fn xpub_json(x: &ExtendedPublicKey) -> Value {
     json!({
         "string": sub(|| x.to_string(), |s| json!(s)),
+        "string_impl_eq": x.to_string().ok() == x.to_string_impl().ok(),
         "pub": sub(|| x.get_public_key().to_bytes(), |b| h(&b)),
         "chain": h(&x.get_chain_code()),
         "depth": x.get_depth(),
@@ -156,14 +193,16 @@ fn bip32(req: &Value) -> R {
         Pub(ExtendedPublicKey),
     }
     let start = get(req, "start")?;
+    // via_impl: use the public `*_impl` twins of every entry point (they are part of the public API too)
+    let vi = bo(req, "via_impl");
     let mut cur = if let Some(s) = hx_opt(start, "seed")? {
-        K::Prv(ExtendedPrivateKey::from_seed(&s).map_err(lib)?)
+        K::Prv(if vi { ExtendedPrivateKey::from_seed_impl(&s) } else { ExtendedPrivateKey::from_seed(&s) }.map_err(lib)?)
     } else if let Some(s) = hx_opt(start, "xpub_seed")? {
-        K::Pub(ExtendedPublicKey::from_seed(&s).map_err(lib)?)
+        K::Pub(if vi { ExtendedPublicKey::from_seed_impl(&s) } else { ExtendedPublicKey::from_seed(&s) }.map_err(lib)?)
     } else if let Some(s) = st_opt(start, "xprv") {
-        K::Prv(ExtendedPrivateKey::from_string(s).map_err(lib)?)
+        K::Prv(if vi { ExtendedPrivateKey::from_string_impl(s) } else { ExtendedPrivateKey::from_string(s) }.map_err(lib)?)
     } else if let Some(s) = st_opt(start, "xpub") {
-        K::Pub(ExtendedPublicKey::from_string(s).map_err(lib)?)
+        K::Pub(if vi { ExtendedPublicKey::from_string_impl(s) } else { ExtendedPublicKey::from_string(s) }.map_err(lib)?)
     } else if let Some(which) = st_opt(start, "random") {
         match which {
             "prv" => K::Prv(ExtendedPrivateKey::from_random().map_err(lib)?),
@@ -189,13 +228,13 @@ fn bip32(req: &Value) -> R {
         for s in steps {
             let next: Result<Result<K, String>, Value> = if let Some(i) = un_opt(s, "derive") {
                 guarded(|| match &cur {
-                    K::Prv(x) => x.derive(i as u32).map(K::Prv).map_err(|e| e.to_string()),
-                    K::Pub(x) => x.derive(i as u32).map(K::Pub).map_err(|e| e.to_string()),
+                    K::Prv(x) => if vi { x.derive_impl(i as u32) } else { x.derive(i as u32) }.map(K::Prv).map_err(|e| e.to_string()),
+                    K::Pub(x) => if vi { x.derive_impl(i as u32) } else { x.derive(i as u32) }.map(K::Pub).map_err(|e| e.to_string()),
                 })
             } else if let Some(p) = st_opt(s, "path") {
                 guarded(|| match &cur {
-                    K::Prv(x) => x.derive_from_path(p).map(K::Prv).map_err(|e| e.to_string()),
-                    K::Pub(x) => x.derive_from_path(p).map(K::Pub).map_err(|e| e.to_string()),
+                    K::Prv(x) => if vi { x.derive_from_path_impl(p) } else { x.derive_from_path(p) }.map(K::Prv).map_err(|e| e.to_string()),
+                    K::Pub(x) => if vi { x.derive_from_path_impl(p) } else { x.derive_from_path(p) }.map(K::Pub).map_err(|e| e.to_string()),
                 })
             } else if bo(s, "neuter") {
                 guarded(|| match &cur {
@@ -204,6 +243,8 @@ fn bip32(req: &Value) -> R {
                 })
             } else if bo(s, "reparse") {
                 guarded(|| match &cur {
+                    K::Prv(x) if vi => x.to_string_impl().and_then(|t| ExtendedPrivateKey::from_string_impl(&t)).map(K::Prv).map_err(|e| e.to_string()),
+                    K::Pub(x) if vi => x.to_string_impl().and_then(|t| ExtendedPublicKey::from_string_impl(&t)).map(K::Pub).map_err(|e| e.to_string()),
                     K::Prv(x) => x.to_string().and_then(|t| ExtendedPrivateKey::from_string(&t)).map(K::Prv).map_err(|e| e.to_string()),
                     K::Pub(x) => x.to_string().and_then(|t| ExtendedPublicKey::from_string(&t)).map(K::Pub).map_err(|e| e.to_string()),
                 })
